@@ -107,6 +107,9 @@ typedef struct sim_inst {
 	void *priv;
 } sim_inst;
 
+/* sink for the default rule's echo where it cannot be hooked (c99) */
+extern FILE *sim_devnull;
+
 /* the instance running on this thread */
 extern __thread sim_inst *sim_cur;
 
